@@ -18,6 +18,10 @@ import numpy as np
 
 VERIF_DIR = os.path.dirname(os.path.dirname(os.path.abspath(__file__)))
 EVIDENCE_DIR = os.path.join(VERIF_DIR, "evidence")
+if os.path.realpath(os.environ.get("VOPY_VERIF_REPO", "/repo")) != "/repo":
+    # sensitivity runs against a scratch tree (tools/run_mutant.sh) must never overwrite the evidence of /repo
+    EVIDENCE_DIR = os.path.join(VERIF_DIR, "evidence-scratch")
+    os.makedirs(EVIDENCE_DIR, exist_ok=True)
 REPLAY_DIR = os.path.join(VERIF_DIR, "replays")
 KNOWN_FINDINGS = os.path.join(VERIF_DIR, "known_findings.json")
 
